@@ -198,7 +198,12 @@ def fit_model_retry(kind):
         X = pd.DataFrame({"intercept": np.ones(12), "f": rng.normal(size=12)})
         y = pd.Series(rng.normal(size=12))
         w = pd.Series(rng.uniform(1, 3, size=12))
-        m.fit_model(QuantileRegressionSolver(), X, y, 0.5, w, True)
+        qr = QuantileRegressionSolver()
+        m.fit_model(qr, X, y, 0.5, w, True)
+        # the solver object the CALLER holds must be the one that ends up fitted (it is what predict() is called on)
+        out["callers_solver_is_fitted"] = bool(len(np.asarray(qr.coefficients).ravel()) > 0)
+        if out["callers_solver_is_fitted"]:
+            qr.predict(X.values)
     except Exception as e:  # noqa
         out["exc"] = f"{type(e).__name__}: {e}"
     finally:
@@ -881,6 +886,9 @@ def unexpected_id_replay(parts, district):
     rows = [{"postal_code": "ZZ", "geographic_unit_fips": f"F_{i}", "percent_expected_vote": 100.0, "baseline_weights": 100.0, "turnout_factor": 1.0, "results_weights": 100.0, "results_turnout": 100.0, "last_election_results_turnout": 101.0} for i in range(2)]
     feed_rows = [{"postal_code": "ZZ", "geographic_unit_fips": f"F_{i}", "percent_expected_vote": 100.0, "results_turnout": 100.0} for i in range(2)]
     feed_rows.append({"postal_code": "ZZ", "geographic_unit_fips": uid, "percent_expected_vote": 50.0, "results_turnout": 7.0})
+    # a second unit outside the baseline whose feed row says 0 percent expected vote although votes are already counted
+    uid0 = "_".join(c + "z" for c in clean)
+    feed_rows.append({"postal_code": "ZZ", "geographic_unit_fips": uid0, "percent_expected_vote": 0.0, "results_turnout": 11.0})
     h = CombinedDataHandler.__new__(CombinedDataHandler)
     h.estimands = ["turnout"]
     h.data = pd.DataFrame(rows, columns=cols)
@@ -898,6 +906,8 @@ def unexpected_id_replay(parts, district):
         ok = out["county_fips"] == [want_county]
         if district:
             ok = ok and out["district"] == [clean[0]]
+        out["rows"] = sorted(str(x) for x in un.geographic_unit_fips)
+        ok = ok and out["rows"] == sorted([uid, uid0])  # EVERY feed unit outside the baseline, whatever its percentage
         out["ok"] = bool(ok)
         out["want_county"] = want_county
     except Exception as e:  # noqa
@@ -977,6 +987,9 @@ def uniform_swing_request_replay(lambda_=3.0):
         df = pd.DataFrame({"postal_code": "AA", "geographic_unit_fips": [f"{'r' if rep else 'n'}{i}" for i in range(n)], "reporting": int(rep), "unit_category": "expected"})
         df["last_election_results_turnout"] = last + 1
         df["results_turnout"] = np.round(last * (1 + rng.normal(0.05, 0.1, n))) if rep else np.round(last * 0.1)
+        if rep:
+            # some reporting units have counted NO vote at all (relative change -1): they are modelled units like any other
+            df.loc[df.index[:9], "results_turnout"] = 0.0
         df["residuals_turnout"] = (df["results_turnout"] - df["last_election_results_turnout"]) / df["last_election_results_turnout"]
         return df
 
@@ -1085,6 +1098,10 @@ def version_history_replay(dem, gop, last_pev=100.0, turnout=None, weights=None,
         import itertools
 
         grid = [(30, 10), (35, 5), (40, 40), (60, 20), (20, 60)]
+        r0 = version_history_replay([150, 210, 610], [50, 290, 390], pev=[20.0, 50.0, 100.0])
+        if not r0["ok"]:
+            r0["note"] = "battery history (first version at 20 percent)"
+            return r0
         for nv2 in (2, 3):
             for hist in itertools.product(grid, repeat=nv2):
                 r = version_history_replay([x[0] for x in hist], [x[1] for x in hist])
@@ -1112,7 +1129,11 @@ def version_history_replay(dem, gop, last_pev=100.0, turnout=None, weights=None,
         out["ok"] = bool(res["est_correction"].isna().all() and et <= {"non-monotone percent expected vote", "batch_margin"} and len(res) == 101)
     else:
         est = res["est_margin"].to_numpy(dtype=float)
-        out["ok"] = bool(et == {"none"} and np.isfinite(est).all() and (np.abs(est) <= 1 + 1e-12).all())
+        pcs = res["percent_expected_vote"].to_numpy(dtype=float)
+        first_pct = float(pv[0]) * 100.0 / float(pv[-1]) if pv[-1] > 0 else 0.0  # the history is re-scaled to end at 100
+        before = (pcs > 0) & (pcs < min(first_pct, float(pv[0])) - 1e-9)
+        out["before_first_observation_ok"] = bool(np.allclose(est[before], mg[0], atol=1e-9)) if before.any() else True
+        out["ok"] = bool(et == {"none"} and np.isfinite(est).all() and (np.abs(est) <= 1 + 1e-12).all() and out["before_first_observation_ok"])
     return out
 
 
@@ -1182,16 +1203,20 @@ def results_saved_before_gate_replay():
         s3.S3Util.__init__ = fake_init
         s3.S3Util.put = fake_put
         base = synthetic(12, seed=3, states=("AA",))
-        cur = feed(base, [100] * 3 + [0] * 9)
-        raised = False
-        try:
-            run_client(cur, base, prediction_intervals=(0.9,), pi_method="nonparametric", save_output=["results"])
-        except cl.ModelNotEnoughSubunitsException:
-            raised = True
-        out["raised_dedicated"] = raised
-        out["puts"] = puts[:6]
-        out["results_written"] = any("/results/" in p for p in puts)
-        out["ok"] = bool(raised and out["results_written"])
+        ok = True
+        for n_reporting in (3, 0):  # too few reporting units, and none at all (start of the night)
+            del puts[:]
+            cur = feed(base, [100] * n_reporting + [0] * (12 - n_reporting))
+            raised = False
+            try:
+                run_client(cur, base, prediction_intervals=(0.9,), pi_method="nonparametric", save_output=["results"])
+            except cl.ModelNotEnoughSubunitsException:
+                raised = True
+            out[f"reporting_{n_reporting}"] = {"raised_dedicated": raised, "puts": puts[:4]}
+            ok = ok and raised and any("/results/" in p for p in puts)
+        out["raised_dedicated"] = True
+        out["results_written"] = ok
+        out["ok"] = bool(ok)
     except Exception as e:  # noqa
         out["exc"] = f"{type(e).__name__}: {e}"
         out["ok"] = False
